@@ -125,3 +125,27 @@ Proof. vm_compute. reflexivity. Qed.
 Example write_fail_example :
   tpkt_write [1; 2; 3] [Accept 2; Accept 3; Fail; Accept 9] = ([3; 0; 0; 7; 1], Err EIo, [Accept 9]).
 Proof. vm_compute. reflexivity. Qed.
+
+(* ---- histories of writes on one client *)
+Definition write_ok (msg : bytes) (o : bytes * outcome unit) : Prop :=
+  let '(out, r) := o in
+  (too_large msg /\ r = Err EInvalidSize /\ out = []) \/
+  (~ too_large msg /\ r = Ok tt /\ out = enc (Slow 0 msg)) \/
+  (~ too_large msg /\ r = Err EIo /\ strict_prefix out (enc (Slow 0 msg))).
+
+Lemma tpkt_writes_history :
+  forall (msgs : list bytes) (s : schedule), Forall2 write_ok msgs (fst (tpkt_writes msgs s)).
+Proof.
+  induction msgs as [|m tl IH]; intros s; cbn [tpkt_writes fst].
+  - constructor.
+  - pose proof (tpkt_write_exact_or_refused m s) as H.
+    destruct (tpkt_write m s) as [[out r] s'] eqn:E.
+    specialize (IH s'). destruct (tpkt_writes tl s') as [rs s''] eqn:E2. cbn [fst] in *.
+    constructor; [|exact IH].
+    unfold write_ok. destruct H as [(H1 & H2 & H3 & _)|[(H1 & H2 & H3)|(H1 & H2 & H3 & _)]]; auto.
+Qed.
+
+Lemma tpkt_writes_example :
+  fst (tpkt_writes [[1; 2; 3]; [9]] [Accept 2; Fail; Accept 9]) =
+    [([3; 0], Err EIo); ([3; 0; 0; 5; 9], Ok tt)].
+Proof. reflexivity. Qed.
